@@ -25,4 +25,9 @@ def run(chk, replay=None):
     fqlib.run_fq(chk, ("C05/",), nsim=3000 if thorough else 300, nstarve=100 if thorough else 20, nrand=2000 if thorough else 300)
     dlvlib.socket_level(chk, ("C05/",), types=(["PULL", "ROUTER", "REP", "DEALER", "SUB", "XPUB"] if thorough else ["PULL", "ROUTER"]),
                         depth=6 if thorough else 5, nrand=1500 if thorough else 150)
+    # exactly-once and per-peer order also while the runtime's cooperative budget refuses reads and the fair queue yields and asks again
+    bg = dlvlib.budget_scripts(720000, budgets=(1, 2, 3) if thorough else (1, 3), backlog=(20, 40) if thorough else (20,))
+    for s_ in bg: chk.case(("budget", s_["sock"], s_["tag"]))
+    v = dlvlib.run_scripts(chk, bg, "c05-budget")
+    dlvlib.report(chk, v, bg, ("C05/",), "cooperative budget")
     dlvlib.flood(chk, ("C05/",), nper=12 if thorough else 2, clients=6 if thorough else 4, msgs=300 if thorough else 60)
